@@ -82,6 +82,14 @@ def check_case(case):
                     r2 = libx.call('pow-' + kind, CheckProofOfWork, hv, c, allowed=(ValidationError,))
                     if (r2[0] == 'ok') != got:
                         raise Violation('pow/hash-as-' + kind, 'CheckProofOfWork gives another verdict for the same hash passed as %s' % kind)
+            if (h + c) % 3 == 0:
+                # the compact value held as one of the caller's integer kinds (an IntEnum member naming a target, an int subclass)
+                for kind, cv in libx.int_kinds(c)[1:]:
+                    r2 = libx.call('pow-nbits-as-' + kind, CheckProofOfWork, h.to_bytes(32, 'little'), cv, allowed=(ValidationError,))
+                    if (r2[0] == 'ok') != got:
+                        raise Violation('pow/nbits-as-' + kind, 'CheckProofOfWork gives another verdict for nBits=0x%08x passed as %s' % (c, kind))
+                    if uint256_from_compact(cv) != uint256_from_compact(c):
+                        raise Violation('decode/nbits-as-' + kind, 'uint256_from_compact differs for 0x%08x passed as %s' % (c, kind))
             if got != exp:
                 v, neg, ovf = RC.set_compact(c)
                 raise Violation('pow/%s' % ('accepts-invalid' if got else 'rejects-valid') + ('-signbit' if c & 0x800000 else ''),
@@ -98,7 +106,9 @@ def check_case(case):
         prev_chain = 'mainnet'
         try:
             for chain, h, c in case['steps']:
-                if chain.startswith('!'):
+                if chain == '=':
+                    chain = prev_chain          # no selection call at all: a long run of checks under ONE selection
+                elif chain.startswith('!'):
                     # a selection that is REFUSED (unknown name) in between: the previous chain stays in force, completely
                     try:
                         bitcoin.SelectParams(chain[1:])
@@ -202,6 +212,22 @@ def t_random(ctx):
         for ch in libx.CHAINS:
             for c in (0, 0x1d00ffff, 0x207fffff, 0x01800000, 0x1d800001, 0x23000001, 0x2100ffff, 0x04000000, 0x1c00ffff):
                 ctx.run({'kind': 'powseq', 'steps': [[ch, 'genesis', c], ['!testnet3', 0, 0x1d00ffff], ['!', 5, 0x207fffff], [ch, 'genesis', c], ['!main', 0, c]]})
+        # a long run of DISTINCT valid compact values under one selection, each judged at its target (accept), then all of them
+        # again at target and target+1: whatever is remembered about recently seen values must not answer for a neighbour
+        for ch in libx.CHAINS:
+            lim = RC.CHAINS[ch]['limit']
+            cs = []
+            for k_ in range(200):
+                c = (0x1c if ch != 'regtest' else 0x1f) << 24 | (0x00ffff - k_ * 131)
+                v = RC.set_compact(c)[0]
+                if 0 < v <= lim and c not in cs:
+                    cs.append(c)
+                if len(cs) >= 70:
+                    break
+            steps = [[ch, RC.set_compact(cs[0])[0], cs[0]]] + [['=', RC.set_compact(c)[0], c] for c in cs[1:]]
+            steps += [['=', RC.set_compact(c)[0] + d, c] for c in cs for d in (0, 1)]
+            ctx.run({'kind': 'powseq', 'steps': steps})
+        ctx.exhaustive.append('70 distinct valid compact values in a row under one selection, then each again at target and target+1 (per chain)')
         ctx.exhaustive.append('3 targets x all 24 orders of the four chains (chain-switch histories); each chain\'s genesis hash against 9 compact values; refused selections in between')
 
 
